@@ -129,8 +129,6 @@ def check_implicit(chk, mod, modname=U.ADVK, qname=IMPL):
             Wrap(ex.env["endPts_k1_q"].read([i, j])), Wrap(S["q"] - F0_th * mf), qname)
     compare(chk, "F1-predictor", fn, "r* = r_j + (d_theta phi/r_j) dt/B0 (initial iterate)",
             ex.env["endPts_k1_r"].read([i, j]), S["r"] + F0_r * mf, qname)
-    half = ex.env.get("multFactor")
-    compare(chk, "F1-fixed-point-map", fn, "step factor inside the iteration is dt/(2 B0)", half, mf / 2, qname)
     norm0 = ex.env.get("norm")
     tol = args["tol"]
     okn = norm0 is not None and sp.simplify(norm0 - tol) != 0 and sp.simplify(norm0 - tol).is_positive is not False
@@ -151,19 +149,16 @@ def check_implicit(chk, mod, modname=U.ADVK, qname=IMPL):
         raise AnalysisError(f"C12: iteration body of {qname} is not a double loop")
     inner = loops[0].body[0].body
     ex2, args2 = setup(ast.FunctionDef(name="_it", args=fn.args, body=[], decorator_list=[], lineno=fn.lineno))
-    # state at loop entry: work arrays as after the predictor; current iterate generic
-    for nm in ("drPhi_0", "dthetaPhi_0"):
-        ex2.env[nm] = ex.env[nm]
-    Q, R = ex2.env["endPts_k1_q"], ex2.env["endPts_k1_r"]
-    ex2.env["multFactor"] = mf / 2
+    # state at loop entry: every local as after the predictor phase; the current iterate is generic
+    from ..symx import Arr as _Arr
+    for nm, val in ex.env.items():
+        if nm not in ("endPts_k1_q", "endPts_k1_r"):
+            ex2.env[nm] = val
+    Q, R = _Arr("endPts_k1_q"), _Arr("endPts_k1_r")
+    ex2.env["endPts_k1_q"], ex2.env["endPts_k1_r"] = Q, R
     n_in = Symbol("norm_in", real=True)
     ex2.env["norm"] = n_in
     ex2.env["i"], ex2.env["j"] = i, j
-    ex2.env["pi"] = PI
-    ex2.env["nPts_r"] = ex.env["nPts_r"]
-    ex2.env["nPts_q"] = ex.env["nPts_q"]
-    ex2.env["rMax"] = ex.env["rMax"]
-    ex2.env["idx"] = ex.env.get("idx")
     try:
         ex2.block(inner)
     except Undecided as e:
@@ -183,6 +178,8 @@ def check_implicit(chk, mod, modname=U.ADVK, qname=IMPL):
             ex2.env["endPts_k1_r"].read([i, j]), r_n, qname)
     compare(chk, "F1-fixed-point-map", w, "endPts_k2 holds the new iterate (used by the fill)",
             ex2.env["endPts_k2_r"].read([i, j]), r_n, qname)
+    compare(chk, "F1-fixed-point-map", w, "endPts_k2_q holds the new angle (used by the fill)",
+            ex2.env["endPts_k2_q"].read([i, j]), th_n, qname)
     # convergence measure: max over both coordinates, periodic distance in theta
     d0 = sp.Abs(th_n - th_k)
     dth = ITE(sp.Gt(d0, PI), 2 * PI - d0, d0)
@@ -272,5 +269,8 @@ def run(chk):
     for w, g in (("poloidal_advection_step_expl", EXPL), ("poloidal_advection_step_impl", IMPL)):
         agree.check_wrapper_dispatch(chk, mod, w, g)
     call_site_roles(chk)
+    # per-z potential splines (state anchor of the property): distinct objects, consistent index space, own plane/velocity
+    from .C05 import poloidal
+    poloidal(chk)
     chk.floor("F1-", 14)
     chk.floor("E", 6)
